@@ -138,3 +138,24 @@ func VerifC13(job int, T int, twin int) {
 		vFail("multi-command result is not the concatenation of the commands run alone")
 	}
 }
+
+// bodies that can match the empty string, referenced several times with required text after the last
+// reference (what follows a call can then be reached without consuming input through that call)
+var c13NullBodies = []string{"maybe 'a'", "at least 0 'a'", "maybe ('a' or 'b')", "at least 0 ('a' 'b')", "maybe 'a' fewest"}
+var c13NullContexts = [][2]string{
+	{"set s to pattern %B find all s s 'x'", "find all %B %B 'x'"},
+	{"find all {%B} = s s 'x'", "find all %B %B 'x'"},
+	{"set s to pattern %B find all s ('x' or s) 'y'", "find all %B ('x' or %B) 'y'"},
+	{"set s to pattern %B find all at least 1 (s 'x')", "find all at least 1 (%B 'x')"},
+	{"set s to pattern %B find all 'x' s s", "find all 'x' %B %B"},
+	{"set s to pattern %B find all s s s 'x' s", "find all %B %B %B 'x' %B"},
+}
+
+func VerifC13NullCount() int { return len(c13NullBodies) * len(c13NullContexts) }
+
+func VerifC13Null(job int, T int) {
+	sb, sc := c13Bodies, c13Contexts
+	c13Bodies, c13Contexts = c13NullBodies, c13NullContexts
+	defer func() { c13Bodies, c13Contexts = sb, sc }()
+	VerifC13(job, T, 0)
+}
